@@ -109,6 +109,10 @@ func errName(err interface{}) string {
 	case index.ItemNotFoundError:
 		return "notfound"
 	}
+	// (by its text, so that the harness also builds against a tree without this error value)
+	if e, ok := err.(error); ok && e.Error() == "Metadata too large" {
+		return "mdtoolarge"
+	}
 	return fmt.Sprintf("other(%v)", err)
 }
 
@@ -192,6 +196,9 @@ func (r *refMap) apply(o pOp) string {
 		_, had := r.items[it.id]
 		switch kind {
 		case "ins":
+			if !mdFitsFormat(mdToMap(it.md)) {
+				return "mdtoolarge"
+			}
 			if had {
 				return "exists"
 			}
@@ -205,6 +212,9 @@ func (r *refMap) apply(o pOp) string {
 				if _, ok := md[k]; !ok {
 					md[k] = v
 				}
+			}
+			if !mdFitsFormat(md) { // refused as a whole: the stored item is kept as it was
+				return "mdtoolarge"
 			}
 			r.items[it.id] = refEntry{it.vec, md}
 		case "del":
@@ -260,9 +270,27 @@ func stripLevels(c string) string {
 	return strings.Join(ss, " ")
 }
 
+// mdFitsFormat: the snapshot format's length fields (the harness's own statement of the limits)
+func mdFitsFormat(m map[string]string) bool {
+	if len(m) > 65535 {
+		return false
+	}
+	for k, v := range m {
+		if len(k) > 255 || len(v) > 65535 {
+			return false
+		}
+	}
+	return true
+}
+
 func genPartitionLog(r *Rng, nOps, idUniverse, nvec int, maxLive int) []pOp {
 	var ops []pOp
-	mds := []string{"-", "-", "-", "a=1", "a=2", "a=1,b=x", "b=y", "k=v,z=w", "long=" + strings.Repeat("x", 1+r.Intn(40))}
+	mds := []string{"-", "-", "-", "a=1", "a=2", "a=1,b=x", "b=y", "k=v,z=w", "long=" + strings.Repeat("x", 1+r.Intn(40)),
+		"-", "a=3,c=1", "b=q", "-",
+		strings.Repeat("K", 255) + "=fits", strings.Repeat("K", 256) + "=refused"}
+	if r.Intn(6) == 0 { // now and then a value at / beyond the 16-bit length field
+		mds = append(mds, "big="+strings.Repeat("v", 65535), "big="+strings.Repeat("v", 65536))
+	}
 	vi := 0
 	nextVec := func() int { v := vi % nvec; vi++; return v }
 	live := map[int]bool{}
@@ -509,6 +537,21 @@ func runPartition(c *Ctx) {
 		vecs := []amath.Vector{{1, 2}, {3, 4}, {5, 6}, {7, 9}}
 		run("corpus-D7", rng.Fork(), []pOp{{"ins", []pItem{{1, 0, 0, "a=1"}}}, {"upd", []pItem{{1, 1, 0, "-"}}}, {"bupd", []pItem{{1, 2, 0, "-"}, {2, 3, 0, "-"}}}}, 2, 0, true, vecs)
 		run("corpus-D2", rng.Fork(), []pOp{{"ins", []pItem{{1, 0, 0, "-"}}}, {"del", []pItem{{1, 0, 0, "-"}}}, {"ins", []pItem{{2, 1, 1, "k=v"}}}}, 2, 0, true, vecs)
+		// D5 at the partition layer: metadata at / beyond the snapshot format's length fields; an update
+		// is refused when the *merged* metadata has one entry too many, and the item stays as it was
+		var many []string
+		for i := 0; i < 65535; i++ {
+			many = append(many, fmt.Sprintf("k%d=", i))
+		}
+		full := strings.Join(many, ",")
+		run("corpus-D5", rng.Fork(), []pOp{
+			{"ins", []pItem{{1, 0, 0, strings.Repeat("K", 256) + "=v"}}},
+			{"ins", []pItem{{1, 0, 0, full}}},
+			{"upd", []pItem{{1, 1, 0, "one-more=x"}}},
+			{"upd", []pItem{{1, 2, 0, "k7=changed"}}},
+			{"bupd", []pItem{{1, 3, 0, "another=y"}, {1, 3, 0, "k8=z"}}},
+			{"bins", []pItem{{2, 1, 0, "v=" + strings.Repeat("x", 65536)}, {3, 2, 1, "v=" + strings.Repeat("x", 65535)}}},
+		}, 2, 0, true, vecs)
 	}
 	for h := 0; h < nh; h++ {
 		r := rng.Fork()
